@@ -9,6 +9,7 @@ require (
 	github.com/pires/go-proxyproto v0.7.0
 	github.com/samber/lo v1.47.0
 	github.com/spf13/cobra v1.8.0
+	golang.org/x/crypto v0.37.0
 	golang.org/x/net v0.39.0
 	pgregory.net/rapid v1.3.0
 	sigs.k8s.io/yaml v1.3.0
@@ -45,7 +46,6 @@ require (
 	github.com/vishvananda/netlink v1.3.0 // indirect
 	github.com/vishvananda/netns v0.0.4 // indirect
 	github.com/xtaci/kcp-go/v5 v5.6.13 // indirect
-	golang.org/x/crypto v0.37.0 // indirect
 	golang.org/x/exp v0.0.0-20241204233417-43b7b7cde48d // indirect
 	golang.org/x/oauth2 v0.28.0 // indirect
 	golang.org/x/sync v0.13.0 // indirect
